@@ -949,3 +949,48 @@ Theorem C01_partial_model_utf8_override : forall dbg idna, IdnaOK idna -> forall
     (spec_basic_url_parse (spec_host_parser idna) input sbase).
 Proof. exact partial_model_utf8. Qed.
 Print Assumptions C01_partial_model_utf8_override.
+
+(* non-vacuity, with the host model and an oracle meeting IdnaOK (identity on clean ASCII): the theorem
+   applied three times in a row to its own results -
+   " N://u@H.x:080/a/b/c?q" (no base, authority class) -> n://u@H.x:80/a/b/c?q ;
+   "../d/./e#f" against that result (path-relative class) -> n://u@H.x:80/a/d/e#f ;
+   "?z" against that result (query-only class) -> n://u@H.x:80/a/d/e?z ;
+   and "hTTp:\\ExAmple.com:80/x/../y" (no base, special class) is in in_proved_class3 with a host query of
+   the other kind (isOpaque = false) *)
+Example C01_partial_model_nonvacuous :
+  let idna := ex_idna_clean in
+  let shp := spec_host_parser idna in
+  let P base i := parse_url true (host_parse idna) host_parse_opaque host_display None base i in
+  let S sbase i := spec_basic_url_parse shp i sbase in
+  let i1 := [32; 78; 58; 47; 47; 117; 64; 72; 46; 120; 58; 48; 56; 48; 47; 97; 47; 98; 47; 99; 63; 113] in
+  let i2 := [46; 46; 47; 100; 47; 46; 47; 101; 35; 102] in
+  let i3 := [63; 122] in
+  let i4 := [104; 84; 84; 112; 58; 92; 92; 101; 120; 97; 109; 112; 108; 101; 46; 99; 111; 109; 58; 56; 48; 47; 120; 47; 46; 46; 47; 121] in
+  IdnaOK idna
+  /\ in_proved_class3 None i1 = true /\ class_host_query None i1 = Some (true, [72; 46; 120])
+  /\ match P None i1, S None i1 with
+     | POk u1, BDone su1 =>
+         q_href u1 = [110; 58; 47; 47; 117; 64; 72; 46; 120; 58; 56; 48; 47; 97; 47; 98; 47; 99; 63; 113]
+         /\ in_proved_class3 (Some su1) i2 = true /\ class_host_query (Some su1) i2 = None
+         /\ match P (Some u1) i2, S (Some su1) i2 with
+            | POk u2, BDone su2 =>
+                q_href u2 = [110; 58; 47; 47; 117; 64; 72; 46; 120; 58; 56; 48; 47; 97; 47; 100; 47; 101; 35; 102]
+                /\ in_proved_class3 (Some su2) i3 = true
+                /\ match P (Some u2) i3, S (Some su2) i3 with
+                   | POk u3, BDone su3 =>
+                       q_href u3 = [110; 58; 47; 47; 117; 64; 72; 46; 120; 58; 56; 48; 47; 97; 47; 100; 47; 101; 63; 122]
+                       /\ api_of_model true u3 = Some (spec_api_list spec_host_serializer su3)
+                   | _, _ => False
+                   end
+            | _, _ => False
+            end
+     | _, _ => False
+     end
+  /\ in_proved_class3 None i4 = true
+  /\ class_host_query None i4 = Some (false, [101; 120; 97; 109; 112; 108; 101; 46; 99; 111; 109])
+  /\ match P None i4, S None i4 with
+     | POk u, BDone su => q_href u = [104; 116; 116; 112; 58; 47; 47; 101; 120; 97; 109; 112; 108; 101; 46; 99; 111; 109; 47; 121]
+                          /\ api_of_model true u = Some (spec_api_list spec_host_serializer su)
+     | _, _ => False
+     end.
+Proof. cbv zeta. split; [exact ex_idna_clean_ok|]. vm_compute. repeat split. Qed.
